@@ -338,6 +338,18 @@ struct gradients_t
         }
         return c;
     }
+    gradients_t reversed() const // the gradients of the samples in reversed order
+    {
+        auto c = *this;
+        for (int i = 0; i < n; ++i)
+        {
+            for (int o = 0; o < O; ++o)
+            {
+                c.digit[static_cast<size_t>(i * O + o)] = digit[static_cast<size_t>((n - 1 - i) * O + o)];
+            }
+        }
+        return c;
+    }
     std::string show() const
     {
         std::vector<double> v;
@@ -1191,6 +1203,7 @@ void stage_consistency(report_t& r, const args_t& args)
                             const auto GT  = G.tensor();
                             const auto G2  = G.rotated();
                             const auto GT2 = G2.tensor();
+                            const auto GT3 = G.reversed().tensor();
                             for (const auto& crit : criteria())
                             {
                                 if (p.F() == 2 && n >= crit2_n && crit != "rss" && crit != "aicc")
@@ -1222,22 +1235,24 @@ void stage_consistency(report_t& r, const args_t& args)
                                         const auto bad  = [&](const std::string& key, const std::string& detail)
                                         { r.violation("consistency/" + spec.name + "/" + key, one, merge_json(what(), detail)); };
 
-                                        fitted_t A, B;
-                                        A.spec = B.spec = &spec;
+                                        fitted_t A, B, C; // C, B: merge partners fitted on other gradient tensors
+                                        A.spec = B.spec = C.spec = &spec;
                                         auto& mine      = pool[crit + "/" + spec.name];
                                         if (mine.empty())
                                         {
-                                            for (int k = 0; k < 4; ++k)
+                                            for (int k = 0; k < 5; ++k)
                                             {
                                                 mine.push_back(make_learner(spec, crit));
                                             }
                                         }
                                         A.w = mine[0].get();
                                         B.w = mine[1].get();
+                                        C.w = mine[4].get();
                                         try
                                         {
                                             A.score = A.w->fit(ds, idx, GT);
                                             B.score = B.w->fit(ds, idx, GT2);
+                                            C.score = C.w->fit(ds, idx, GT3);
                                         }
                                         catch (const std::exception& e)
                                         {
@@ -1246,6 +1261,7 @@ void stage_consistency(report_t& r, const args_t& args)
                                         }
                                         A.ok = A.score != wlearner_t::no_fit_score();
                                         B.ok = B.score != wlearner_t::no_fit_score();
+                                        C.ok = C.score != wlearner_t::no_fit_score();
 
                                         // ---- threads: same score (and the same feature when it is the unique optimum)
                                         if (!bT.empty() && li == 0 && spec.depth != 2)
@@ -1506,13 +1522,17 @@ void stage_consistency(report_t& r, const args_t& args)
                                                 }
                                             }
 
-                                            // ---- merge [A, B, A]: the sum of predictions stays
+                                            // ---- merge [A, B, C, A] (B: rotated gradient alphabet, C: gradients in reversed sample order): the sum stays
                                             {
                                                 rwlearners_t list;
                                                 list.emplace_back(w.clone());
                                                 if (B.ok)
                                                 {
                                                     list.emplace_back(B.w->clone());
+                                                }
+                                                if (C.ok)
+                                                {
+                                                    list.emplace_back(C.w->clone());
                                                 }
                                                 list.emplace_back(w.clone());
                                                 rows_t sum(static_cast<size_t>(n), std::vector<double>(static_cast<size_t>(O), 0.0));
@@ -1556,6 +1576,10 @@ void stage_consistency(report_t& r, const args_t& args)
                                             if (B.ok)
                                             {
                                                 mixed.emplace_back(B.w->clone());
+                                            }
+                                            if (C.ok)
+                                            {
+                                                mixed.emplace_back(C.w->clone());
                                             }
 
                                             bool nonzero = false;
@@ -1661,7 +1685,7 @@ void stage_consistency(report_t& r, const args_t& args)
                                         if (!same_rows(sum2, sum, 1e-12))
                                         {
                                             r.violation("consistency/mixed/merge_changes_sum", one,
-                                                        merge_json(case_json(p, G, S, "all fitted learners, two gradient tensors each", crit),
+                                                        merge_json(case_json(p, G, S, "all fitted learners, three gradient tensors each", crit),
                                                                    jobj({{"learners_before", jint(before)},
                                                                          {"learners_after", jint(mixed.size())},
                                                                          {"sum_before", show_rows(sum)},
